@@ -235,9 +235,16 @@ def section_building(ctx, F):
         # a subsection that was written out is re-created before anything is added to it (or written) again: otherwise the
         # entries after a run of unused numbers are appended to the old subsection and filed under numbers that are too small
         flushes = [c for c in b.calls if c.local and c.cname.endswith("XrefSection::write_xref_section") and any(c.bb in bl for bl in loops.values())]
+        def recv(c_):
+            q_ = op_place(c_.args[0]) if c_.args else None
+            return b.root_place(q_, through_names=False)["l"] if q_ is not None else None
         for w in flushes:
+            rl = recv(w)
+            # the same section value: uses of the same variable, on a path on which it was not assigned anew (a fresh
+            # XrefSection::new, or the next element of a list of finished sections)
+            kill = {c.bb for c in news} | {d[0] for d in b.defs.get(rl, []) if d[2] != "proj"}
             again = [a for a in adds + [x for x in b.calls if x.local and x.cname.endswith("XrefSection::write_xref_section")]
-                     if lib.feasible_reach(b, w.bb, a.bb, avoid=[c.bb for c in news])]
+                     if recv(a) == rl and lib.feasible_reach(b, w.bb, a.bb, avoid=kill)]
             ctx.ob(R, "flushed-subsection-recreated|%s" % fn, not again, "after write_xref_section the pending subsection is re-created before it is used again", b.where(w.ln),
                    what="%s writes a subsection out and goes on using it (line(s) %s) without starting a new one: the entries after a hole in the numbering are filed under the wrong object numbers and the subsection is written twice"
                         % (fn, sorted({a.ln for a in again})))
